@@ -2,8 +2,8 @@
    Executable model of src/gc/gc.go: targetsToRemove, addTarget, publicDependencies, gcSibling,
    isIncluded, anyInclude, and of the core helpers they call (BuildLabel.Includes/Parent/HasParent/Less,
    BuildTarget.HasLabel/HasAnyLabel/PrefixedLabels, Package.IsIncludedIn).  In code order.  No proofs here.
-   The boolean conditions of targetsToRemove are NOT written by hand: they are regenerated from gc.go
-   by gotrans into Gen/GcConds.v. *)
+   The boolean conditions of targetsToRemove and the same-rule condition of publicDependencies are NOT
+   written by hand: they are regenerated from gc.go by gotrans into Gen/GcConds.v. *)
 From PlzV Require Import Base.Harness Gen.GcConds.
 
 (* ---- labels -------------------------------------------------------------------------------- *)
@@ -167,6 +167,10 @@ Fixpoint add_target (fuel : nat) (g : graph) (m : option kset) (l : label) : opt
   end.
 
 (* ---- publicDependencies ---------------------------------------------------------------------- *)
+(* the condition at gc.go:204, regenerated from the source (Gen/GcConds.v) and instantiated with the
+   model's BuildLabel == and BuildLabel.Parent: dep is a hidden sub-target of the rule target belongs to *)
+Definition same_rule (dep target : label) : bool := GcConds.same_rule_cond label_eqb parent dep target.
+
 (* one iteration of `for _, dep := range target.DeclaredDependencies()`; rec = the recursive call *)
 Definition pd_step (g : graph) (t : target) (rec : target -> option (list target))
                    (acc : option (list target)) (d : label) : option (list target) :=
@@ -176,7 +180,7 @@ Definition pd_step (g : graph) (t : target) (rec : target -> option (list target
       match find_target g d with
       | None => Some acc                                           (* depTarget == nil *)
       | Some dt =>
-          if label_eqb (parent (t_label dt)) (parent (t_label t))
+          if same_rule (t_label dt) (t_label t)
           then match rec dt with None => None | Some r => Some (acc ++ r) end
           else Some (acc ++ [dt])
       end
